@@ -37,4 +37,34 @@ PROPS = {
                             "float rounding is outside the theorems; predicate inputs are exact in float64 or have a margin far above rounding"],
             "trusted": ["enumerations compared as sorted lists, all_sorted as size-sorted permutation, check_supermodularity as none/viol (triple checked by the oracle)"],
             "quick_s": 60, "thorough_s": 600},
+    "C05": {"lean": "ICG.Props.C05", "streams": [("corr_shapley", "C05")], "quick_s": 40, "thorough_s": 600,
+            "rule": ("cases = (n=1..6 quick / 1..8 thorough, known flags, lower, upper) with entries multiples of n!·2^-k (exact in float64); 70% well-formed tables "
+                     "(∅ known 0, known ⇒ lo=hi, lo≤hi), 30% arbitrary vectors, ~10% malformed (grand coalition unknown → err:value), ~12% degenerate; real class and "
+                     "plain-Python IncompleteGame stub; random completions (vertex/interior/max-gain) for domination; non-trivial = ≥2 distinct non-zero widths and (lo,hi) "
+                     "not invariant under any transposition of players; distinct by (n, known, lo, hi)"),
+            "assumptions": ["float rounding is outside the theorems; exact stream inputs make every float64 intermediate exact; separate float sub-stream with rel. tolerance 1e-9"]},
+    "C06": {"lean": "ICG.Props.C06", "streams": [("corr_shapley", "C06")], "quick_s": 40, "thorough_s": 600,
+            "rule": ("cases = (n, complete game) of kinds random / null-player / additive / unit / unanimity, values multiples of n!·2^-k; both entry points on the real class "
+                     "and a plain-Python Game stub; oracle = average over all n! orderings by itertools (n ≤ 6 quick / 7 thorough, factorial-free closed form above), "
+                     "efficiency, random relabelling, null players, linearity; ~10% malformed (one coalition unknown → err:value; non-player index); non-trivial = game not "
+                     "invariant under any transposition; distinct by (n, values)"),
+            "trusted": ["Mathlib's List.permutations as the meaning of 'all orderings' (pinned by orderings_complete; orderings_exec avoids it)"]},
+    "C19": {"lean": "ICG.Props.C19", "streams": [("corr_store", "C19")],
+            "rule": ("random save histories (1..8 saves, names from a pool with ~25% deliberate repeats incl. '', unicode, quotes, newline; shapes 1x1..4x4 and 12..40 square-ish; "
+                     "2-D float / 2-D int / (k,1) int / NaN-padded 3-D actions; cells NaN, ±inf, -0.0, 1e300, subnormals; metadata Path / callable / int / float / None / list / tuple) "
+                     "through the real save_json + get_outputs_from_file + Output.from_file, plus solve / greedy / best_states in-process (n=3,4; 1-2 steps; 1-3 repetitions) with the "
+                     "computing function wrapped; non-trivial = history with a repeated name, >=2 names and a NaN cell, and every command run; distinct by history / run index"),
+            "assumptions": ["JSON text round trip of float64 / NaN tokens and np.array shape recovery are the codec hypothesis `decode (encode e) = some e` of the theorems; covered only by this sampling",
+                            "'saved matrices are the computed ones' is checked on the commands by wrapping evaluate / get_greedy_rewards / get_best_exploitability, not proved"],
+            "trusted": ["json, numpy array<->list conversion"], "quick_s": 60, "thorough_s": 600},
+    "C20": {"lean": "ICG.Props.C20", "streams": [("corr_store", "C20")],
+            "rule": ("the file-system operations of the real save_json are observed (os.* and io.open wrapped in the harness process; same io buffering classes as the interpreter) for "
+                     "histories with 0..5 earlier runs x result sizes 1x1..70x60 (1..8 written chunks) x new / existing name x stale temp file; the list is fed to the model "
+                     "(atomicB + predicted content per k) and a crash is injected at EVERY operation k on a fresh copy; non-trivial = >=1 earlier run and >=2 written chunks; "
+                     "distinct by (earlier runs, size, index); thorough: strace cross-check of the observed list"),
+            "assumptions": ["POSIX rename atomicity; a completed write(2) is visible after the process dies; crash granularity = one os-level operation (DESIGN 3.7)",
+                            "path-based reading of descriptor operations is exact because the discipline forbids touching the temporary after the rename"],
+            "trusted": ["the recording layer (_RecRaw under the interpreter's own BufferedWriter/TextIOWrapper); strace agreement is checked in the thorough tier"],
+            "theorems_relying": "ICG.C20.atomicB_atomic / atomic (observed list accepted by atomicB => old-or-new at every k); ICG.C20.truncate_not_atomic (present code)",
+            "quick_s": 60, "thorough_s": 600},
 }
